@@ -214,7 +214,7 @@ class MAUPITILinear(nn.Linear, MAUPITIModule):
 
         # Integer approximation #
         params = {}
-        upper_bound = 2 ** (SCALE_BIT - 1)
+        upper_bound = 2 ** (SCALE_BIT - 1) - 1  # largest signed `SCALE_BIT`-bit integer
         # Create a dict indexed by possible shift amounts, each entry of the dict
         # contains a list where for each channel a `scale` factor is selected as
         # the one minimizing abs(scale / 2**shift - target).
